@@ -3,6 +3,8 @@
 -/
 import Rox.Spec.Tree
 import Rox.Parse
+import Rox.Lemmas.DocSpans
+import Rox.Props.C01
 
 namespace Rox.Props.C13
 open Rox Rox.Spec Rox.Api
@@ -52,5 +54,18 @@ theorem attr_subranges_total (d : Doc) (k : Nat) (a : AttrData) (h : attrAt d k 
   refine ⟨⟨_, rfl⟩, ?_⟩
   have : (a.range.2 == 0) = false := by simp; omega
   simp [this]
+
+/-- **Both ends of every stored range are valid slice bounds** (all valid UTF-8 inputs, all
+options): for every node and attribute of every parsed document — nodes created inside an entity
+expansion included — `range.start` and `range.end` are at most the input length and lie on
+character boundaries. (`_partial`: together with `start ≤ end` this is the validity clause of the
+property; the ordering `start ≤ end` is not proved here for all inputs — it is decided by the
+executable form `rangesValidB` on the implementation's data, see `rangesValidB_iff`.) -/
+theorem parsed_range_ends_valid_partial (txt : Bytes) (hv : ValidUtf8 txt) (opt : Opt) (d : Doc)
+    (h : parse Generated.tables txt opt = .ok d) :
+    (∀ (i : Nat) (n : NodeData), d.nodes[i]? = some n → Rox.Lemmas.EndsOk txt n.range) ∧
+    (∀ (k : Nat) (a : AttrData), d.attrs[k]? = some a → Rox.Lemmas.EndsOk txt a.range) := by
+  have hs := Rox.Lemmas.parse_docSpans Generated.tables C01.generated_tables_ok txt hv opt d h
+  exact ⟨fun i n hn => (hs.nodes i n hn).2, fun k a ha => (hs.attrs k a ha).2.2⟩
 
 end Rox.Props.C13
